@@ -17,6 +17,7 @@ import (
 	"math"
 	"net/http"
 	"net/http/httptest"
+	"net/url"
 	"os"
 	"reflect"
 	"runtime"
@@ -301,6 +302,12 @@ func vhServe(coordinator *Coordinator, method, rawpath string, body string) (rr 
 		req, err = http.NewRequest(method, rawpath, http.NoBody)
 	}
 	if err != nil {
+		return nil, false, true
+	}
+	// a server parses the request target with url.ParseRequestURI (a target starting with "//" is a path, not an authority)
+	if u, perr := url.ParseRequestURI(rawpath); perr == nil {
+		req.URL = u
+	} else {
 		return nil, false, true
 	}
 	rr = httptest.NewRecorder()
